@@ -1,6 +1,7 @@
 package main
 
 import (
+	"encoding/json"
 	"fmt"
 	"io"
 	"os"
@@ -74,12 +75,28 @@ func auditMutants(verifDir, repo, prop string) []auditResult {
 	sort.Strings(seeded)
 	for _, meta := range seeded {
 		b, err := os.ReadFile(meta)
-		if err != nil || !strings.Contains(string(b), "\""+prop+"\"") {
+		if err != nil {
+			continue
+		}
+		var m struct {
+			Property   string              `json:"property"`
+			DetectedBy map[string][]string `json:"detected_by"`
+		}
+		if json.Unmarshal(b, &m) != nil {
+			continue
+		}
+		exp := ""
+		switch {
+		case len(m.DetectedBy[prop]) > 0:
+			exp = "break"
+		case m.Property == prop:
+			exp = "miss" // a documented miss of this property's check (DESIGN.md §7): expected to stay silent
+		default:
 			continue
 		}
 		p := filepath.Join(filepath.Dir(meta), "patch.diff")
 		if _, err := os.Stat(p); err == nil {
-			patches = append(patches, [2]string{p, "break"})
+			patches = append(patches, [2]string{p, exp})
 		}
 	}
 	exe, _ := os.Executable()
@@ -137,7 +154,10 @@ func auditMutants(verifDir, repo, prop string) []auditResult {
 			default:
 				res.Outcome = fmt.Sprintf("checker exit %d", code)
 			}
-			res.OK = (pe[1] == "break" && code == 1) || (pe[1] == "keep" && code == 0)
+			res.OK = (pe[1] == "break" && code == 1) || (pe[1] == "keep" && code == 0) || (pe[1] == "miss" && code == 0)
+			if pe[1] == "miss" && code == 1 {
+				res.Outcome += " (now reported: update meta.json with tools/seedmatrix.py)"
+			}
 		}()
 		out = append(out, res)
 	}
